@@ -1,9 +1,13 @@
 #!/bin/sh
-# tools/try_seed.sh <patch.diff> <property> [extra check args]   — apply, run the check, always undo
+# tools/try_seed.sh <patch.diff> <property> [extra check args]   — apply, run the check, always undo.
+# The evidence file of the property is saved and restored: committed evidence must come from the unchanged tree.
 patch=$1; prop=$2; shift 2
 cd /repo || exit 3
 git diff --quiet || { echo "repo dirty"; exit 3; }
 git apply "$patch" || { echo "PATCH DOES NOT APPLY"; exit 3; }
-cd /verif && ./check "$prop" "$@"; rc=$?
+cd /verif
+[ -f evidence/$prop.json ] && cp evidence/$prop.json /tmp/evidence_$prop.bak
+./check "$prop" "$@"; rc=$?
 git -C /repo checkout -- .
+[ -f /tmp/evidence_$prop.bak ] && mv /tmp/evidence_$prop.bak evidence/$prop.json
 echo "exit=$rc"
